@@ -214,7 +214,7 @@ let c15_line id sel root blocks ctl obs =
       let g = parse_blocks blocks and r = dm_of_string root in
       let c = parse_ctl ctl in
       let (mc, budget) = model_ctl c in
-      "U" ^ trace_text true (walk_adv g fuel r s) ^ "#R" ^ trace_text true (cwalk_adv mc g fuel budget r s) in
+      "U" ^ trace_text true (walk_adv pinned g fuel r s) ^ "#R" ^ trace_text true (cwalk_adv pinned mc g fuel budget r s) in
   let verdict = if model_obs = "compile:unsupported" then "skip" else c15_oracle (parse_ctl ctl) ctl obs in
   print_string id; print_char '\t'; print_string model_obs; print_char '\t'; print_endline verdict
 
@@ -272,7 +272,7 @@ let c14v_line id sel root blocks obs =
     | CUnsupported -> "compile:unsupported"
     | COk s ->
       let g = parse_blocks blocks and r = dm_of_string root in
-      let (evs, o) = walk_adv g fuel r s in
+      let (evs, o) = walk_adv pinned g fuel r s in
       let vs = List.filter_map (fun e ->
           match e with
           | EVisit (p, nd, rs, _) ->
